@@ -10,6 +10,7 @@ from . import util
 from .util import CheckError
 
 MACRO_NAMES = ("contract", "interface", "entry_points")
+PERMUTED_VERDICT_PACKAGES = {"w-collide"}
 
 
 # ------------------------------------------------------------------ attribute recognition
@@ -554,6 +555,10 @@ doctest = false
             index = hdr.get("index", "no" if expect_fail else "yes") == "yes"
             if index:
                 process_tree(os.path.join(wd, rel), c.root, counter, c, splice)
+            elif PERMUTE[0] is not None and wname in PERMUTED_VERDICT_PACKAGES:
+                # pure verdict witnesses whose acceptance must not depend on declaration order either (C14.acceptance): permuted, not indexed
+                process_tree(os.path.join(wd, rel), c.root, counter, c, False)
+                c.items = []
             else:
                 copy_module_tree(os.path.join(wd, rel), c.root)
             c.indexed = index
